@@ -33,8 +33,10 @@ func H_C03_ProbeCursor() {
 	m := f.m
 	names := []string{vSelf, vPeerA, vPeerB, "n3"}
 	n := 2 + vPick(3)
-	if vTier() == 1 && n <= 3 {
-		vOpt("shuffle", 1) // thorough: an arbitrary permutation at every wrap (tables of up to 3 records)
+	// thorough: additionally an arbitrary permutation at every wrap, for 3-record tables of live peers
+	shuffled := vTier() == 1 && n == 3 && vPick(2) == 1
+	if shuffled {
+		vOpt("shuffle", 1)
 	}
 	live := map[string]bool{}
 	// arbitrary order: the local record at an arbitrary position
@@ -46,7 +48,10 @@ func H_C03_ProbeCursor() {
 			continue
 		}
 		ns := f.vAddConcreteAlive(names[k], byte(1+k))
-		st := vPick(4)
+		st := 0
+		if !shuffled {
+			st = vPick(4)
+		}
 		ns.State = NodeStateType(st)
 		ns.StateChange = vNow().Add(-time.Duration([]int64{int64(time.Second), int64(time.Hour)}[vPick(2)]))
 		live[names[k]] = st == 0 || st == 1
